@@ -371,7 +371,15 @@ func (g *Gen) genSketchHistory(prop string) {
 		sg.queries(1, 24)
 		sg.obs(1)
 	case "C11":
-		sg.line("K 1 1 %s", sg.storeSpec(nonCollapsing))
+		kinds := nonCollapsing
+		if r.Bool(25) {
+			kinds = allKinds
+		}
+		x := ""
+		if r.Bool(30) {
+			x = " x" // the exact-summary variant clamps its answers to the exact extremes
+		}
+		sg.line("K 1 1 %s%s", sg.storeSpec(kinds), x)
 		n := r.Range(1, maxN/2)
 		small := r.Bool(40) // total weight below one
 		for i := 0; i < n; i++ {
